@@ -504,6 +504,28 @@ def k_ref_ambiguous(f, rng):
     return e
 
 
+@kind("reference-last-saved-ambiguous-or-unknown", 4)
+def k_ref_last_saved_bad(f, rng):
+    """${last-saved#name} where the name belongs to several elements, or to none: refused like the plain reference would be."""
+    if rng.random() < 0.6:
+        dn = fresh(f, "lsdup")
+        for k in range(pick(rng, [2, 2, 3])):
+            g = Row(pick(rng, ["group", "repeat"]), None, fresh(f, f"gls{k}_"), {"label": "G"}, [Row("q", "text", dn, {"label": "L"})])
+            g.type = f"begin {g.kind}"
+            add_row_somewhere(f, rng, g)
+        e = Exp(r"There are multiple survey elements with this name|multiple survey elements named", "name", name=dn)
+        tag = "ambiguous"
+    else:
+        dn = pick(rng, ["nosuch_ls", "zz_last"])
+        e = Exp(r"There is no survey element with this name|no survey element named", "name", name=dn)
+        tag = "unknown"
+    got = _plant_ref(f, rng, "last-saved#" + dn, col=pick(rng, ["relevant", "constraint", "calculation", "label", "default", "required", "choice_filter", "parameters-seed", "hint"]))
+    if not got:
+        return None
+    e.column = f"{got[0]}/{tag}"
+    return e
+
+
 MALFORMED = ["${a", "${ a}", "${a }", "${a b}", "${a${b}}", "${}", "${a} + ${", "${a} and ${b", "${a.}}", "${1a}", "$ {a}x${", "${a}${", "${${a}}"]
 
 
